@@ -417,7 +417,7 @@ func runC07(ctx Ctx) int {
 	if run.Tier == "thorough" {
 		k = 3
 	}
-	deadline := devx.Deadline(map[string]time.Duration{"quick": 5 * time.Minute, "thorough": 30 * time.Minute}[run.Tier])
+	deadline := devx.Deadline(map[string]time.Duration{"quick": 5 * time.Minute, "thorough": 15 * time.Minute}[run.Tier])
 	type sItem struct {
 		p      ssoP
 		labels []string
@@ -514,7 +514,7 @@ func runC07(ctx Ctx) int {
 	}
 	cb, cs := 1, 90
 	if run.Tier == "thorough" {
-		cb, cs = 2, 1200
+		cb, cs = 2, 180
 	}
 	runConc(run, "C07", cb, cs)
 	run.Sample(sItems[0].p)
